@@ -363,4 +363,48 @@ theorem pow2_pos (k : Nat) : (0:Q) < 2 ^ k := by
   | zero => decide +kernel
   | succ n ih => rw [Rat.pow_succ]; grind
 
+/-- no input changes the configuration -/
+theorem step_cfg {P : Type} (c c' : Cli P) (i : Input P) (evs : List (Ev P))
+    (h : step c i = some (c', evs)) : c'.cfg = c.cfg := by
+  cases i with
+  | connect s =>
+    simp only [step] at h
+    split at h <;> simp at h
+    rw [← h.1]
+  | connectNoWait s acc =>
+    simp only [step] at h
+    split at h <;> simp at h
+    rw [← h.1]
+  | nsEnd n =>
+    simp only [step] at h
+    split at h <;> simp at h
+    rw [← h.1]
+  | lose cause sc =>
+    simp only [step] at h
+    cases hc : c.connected <;> cases hs : c.stored <;> simp only [hc, hs] at h <;>
+      try (simp at h; done)
+    split at h <;> simp only [Option.some.injEq, Prod.mk.injEq] at h <;> rw [← h.1]
+
+theorem run_cfg {P : Type} (is : List (Input P)) : ∀ (c0 c : Cli P) (evs : List (Ev P)),
+    run c0 is = some (c, evs) → c.cfg = c0.cfg := by
+  induction is with
+  | nil =>
+    intro c0 c evs hrun
+    simp only [run, Option.some.injEq, Prod.mk.injEq] at hrun
+    rw [← hrun.1]
+  | cons i is ih =>
+    intro c0 c evs hrun
+    unfold run at hrun
+    cases hst : step c0 i with
+    | none => simp [hst] at hrun
+    | some p =>
+      obtain ⟨c1, e1⟩ := p
+      simp only [hst] at hrun
+      cases hr : run c1 is with
+      | none => simp [hr] at hrun
+      | some q =>
+        obtain ⟨c2, e2⟩ := q
+        simp only [hr, Option.some.injEq, Prod.mk.injEq] at hrun
+        rw [← hrun.1, ih c1 c2 e2 hr, step_cfg c0 c1 i e1 hst]
+
 end Sio.Reconnect
